@@ -5,12 +5,16 @@ from . import rules_cg as G
 from . import rules_lexer as L
 from . import rules_units as U
 from . import rules_store as S
+from . import rules_clone as C
+from . import rules_equality as E
 
 RULES = {
     "T1": T.rule_T1,
     "T2": T.rule_T2,
     "T3": T.rule_T3,
+    "T5": E.rule_T5,
     "T6": T.rule_T6,
+    "T8": C.rule_T8,
     "A3": L.rule_A3,
     "D1": U.rule_D1,
     "D2": U.rule_D2,
@@ -84,6 +88,21 @@ PROPS = {
         "constructed error - in particular one that depends on the index value or the item kind - is reported. Order, length and "
         "that every present key is found are not decided.",
     },
+    "C11": {
+        "rules": ["T5"],
+        "claim": "Decides the dispatch clauses of C11: the (type, type) dispatch of data_equal (outer match and the nested slice x slice "
+        "match) is symmetric, its catch-all is the constant false, mirrored arms hand the same value roles and typed accessors to the "
+        "same helper, and `!=` pushes the negation of the routine `==` pushes. Reflexivity/transitivity and element-wise meaning "
+        "depend on iterator contents and are not decided.",
+    },
+    "C19": {
+        "rules": ["T8", "W1"],
+        "claim": "Decides the agreement clauses of C19: for each of the 37 BasicData variants the reference fields followed by the "
+        "reachability pass (create_index_stack) equal those remapped by the copy pass (clone_index_stack) equal "
+        "spec/basicdata_refs.json, rebuilt values keep their field positions, both per-variant matches have no catch-all, every root "
+        "kind (symbol table, register, value, frame, extra) is traced, remapped and written back, and only the compactor and the "
+        "store primitives rewrite cells (W1). Structural identity after compaction is not decided.",
+    },
     "C09": {
         "rules": ["N1", "N2", "N3"],
         "claim": "Decides the no-wrap/no-trap/finiteness clauses of C09 on the code of impl GarnishNumber for SimpleNumber and its helpers: "
@@ -108,6 +127,8 @@ TECHNIQUE = {
     "C14": "origin (def-use) analysis over resolved HIR: byte-length sources vs character-count sinks; cast scan of the literal parsers",
     "C15": "origin analysis of heap index expressions (interprocedural through parameters and struct fields); sibling cross-check of the six block push functions and copy stanzas; who-may-write tables over resolved calls",
     "C16": "enumeration of locally constructed error values (resolved constructors) in the list lookup functions of both data impls against a reviewed table",
+    "C11": "arm-table extraction of the (type,type) equality dispatch from resolved HIR: symmetry, role signatures of mirrored arms, accessor/type agreement, negation wiring",
+    "C19": "per-variant arm tables of the two compaction passes: binding-to-sink flow of reference fields compared with a reference-field spec; root trace/remap/write-back agreement; who-may-write table",
     "C09": "MIR scan of the number implementation: raw integer BinaryOp/overflow asserts, unchecked std integer calls, overflow-flag dataflow to a branch, FloatToInt casts, dominator check of finiteness tests over Float constructions",
     "C12": "constant/predicate wiring check on the four comparison functions; comparable type-pair arm table",
 }
